@@ -70,6 +70,7 @@ def catalogue_model(ctx):
         entries.append(e)
         prim_rows.append((e["name"], unfreeze(rots), bool(isprim)))
     ctx.extra["_pmat_table"] = [tuple(t) for t in printed(res.stdout, "PMAT")[0][1]]
+    ctx.extra["_shape_table"] = [unfreeze(list(t)) for t in printed(res.stdout, "SHAPE")[0][1]]
     if len(entries) < 17:
         raise tlcmod.MachineryError("x06: only %d catalogue entries emitted" % len(entries))
     entries.sort(key=lambda e: e["name"])
@@ -164,12 +165,12 @@ def close_model(ctx):
                   what="TLC: the definition of cell equivalence is not an equivalence / not invariant as stated")
     rows = []
     seen = set()
-    for _, a, b, o, ao, order in printed(res.stdout, "ISC"):
+    for _, a, b, o, ao, order, conv in printed(res.stdout, "ISC"):
         a, b = unfreeze(a), unfreeze(b)
         k = json.dumps([a, b], sort_keys=True)
         if k not in seen:
             seen.add(k)
-            rows.append((a, b, bool(o), bool(ao), unfreeze(order)))
+            rows.append((a, b, bool(o), bool(ao), unfreeze(order), set(conv)))
     if len(rows) < 200:
         raise tlcmod.MachineryError("x06: only %d isclose pairs emitted" % len(rows))
     return rows
@@ -180,8 +181,14 @@ def close_replay(ctx, rows):
 
     rng = np.random.default_rng(3000 + ctx.seed)
     bad = drv.isclose_replay(rows, CLOSE_D, rng)
-    for a, b, o, ao, _ in rows:
+    for a, b, o, ao, _, _ in rows:
         ctx.count(("isc", json.dumps([a, b], sort_keys=True)))
+    cbad, cn = drv.convert_replay(rows, CLOSE_D, rng)
+    ctx.traces += cn
+    ctx.extra["convert_to_phonopy_primitive_calls"] = cn
+    if cbad:
+        ctx.violation("convert_to_phonopy_primitive:replay", "convert_to_phonopy_primitive differs from ConvertReq / the definition of its "
+                      "result (%d of %d calls)" % (len(cbad), cn), dict(mismatches=len(cbad), witnesses=cbad[:4]))
     ctx.traces += len(rows)
     ctx.extra["isclose_pairs"] = dict(pairs=len(rows), ordered_true=sum(1 for r in rows if r[2]), any_order_true=sum(1 for r in rows if r[3]))
     if bad:
@@ -190,7 +197,7 @@ def close_replay(ctx, rows):
 
 
 # ---------------------------------------------------------------------------------------------
-TRACE_INV = ["ImplCentring", "ImplGuess", "ImplEstimate", "ImplReduce", "ImplParams", "ImplTolerance"]
+TRACE_INV = ["ImplCentring", "ImplGuess", "ImplEstimate", "ImplReduce", "ImplParams", "ImplTolerance", "ImplYaml"]
 
 
 def trace_run(events):
@@ -213,7 +220,8 @@ EVENT_FIELDS = dict(
     guess=("id", "kind", "crystal", "Mn", "den", "exact", "natomprim", "primisprim", "convisprim", "nrot"),
     estsys=("id", "kind", "which", "num", "n", "l2", "maxn", "maxit", "res"),
     estxtal=("id", "kind", "crystal", "Pm", "runs"),
-    reduce=("id", "kind", "method", "Gin", "Tm", "exact"),
+    reduce=("id", "kind", "method", "Gin", "Tm", "exact", "det"),
+    yaml=("id", "kind", "field", "shown", "err", "ulp", "same"),
     tol=("id", "kind", "cls", "mode", "verdict"),
     params=("id", "kind", "Gin", "l2", "c23", "c13", "c12", "exact", "lower", "G2"),
 )
@@ -256,6 +264,32 @@ def validate(ctx, events):
     return verdict
 
 
+def binding_demos(ctx):
+    """Corrupted events must be rejected by TLC (otherwise the trace specification would be vacuous)."""
+    demos = [
+        ("F matrix with one entry changed", dict(id=1, kind="centring", letter="F", Mn=[[0, 3, 3], [3, 0, 3], [3, 3, 3]], den=6, exact=True), "volume"),
+        ("I matrix given for letter F", dict(id=2, kind="centring", letter="F", Mn=[[-3, 3, 3], [3, -3, 3], [3, 3, -3]], den=6, exact=True), "columns-in-lattice"),
+        ("reduced basis of a sublattice", dict(id=3, kind="reduce", method="niggli", Gin=[[1, 0, 0], [0, 1, 0], [0, 0, 1]],
+                                               Tm=[[2, 0, 0], [0, 1, 0], [0, 0, 1]], exact=True, det=2), "same-lattice"),
+        ("unreduced basis reported as Niggli", dict(id=4, kind="reduce", method="niggli", Gin=[[1, 0, 0], [0, 1, 0], [0, 0, 1]],
+                                                    Tm=[[1, 1, 0], [0, 1, 0], [0, 0, 1]], exact=True, det=1), "niggli:order"),
+        ("unreduced basis reported as shortest", dict(id=5, kind="reduce", method="delaunay", Gin=[[1, 0, 0], [0, 1, 0], [0, 0, 1]],
+                                                      Tm=[[1, 1, 0], [0, 1, 0], [0, 0, 1]], exact=True, det=1), "minima:third"),
+        ("estimate one step short", dict(id=6, kind="estsys", which="spg", num=47, n=1, l2=[1, 4, 9], maxn=100, maxit=100, res=[5, 3, 2]), "terminal"),
+        ("estimate not spherical", dict(id=7, kind="estsys", which="spg", num=47, n=1, l2=[1, 4, 9], maxn=36, maxit=100, res=[3, 3, 3]), "balanced"),
+        ("tetragonal estimate with a # b", dict(id=8, kind="estsys", which="pg", num=10, n=1, l2=[4, 4, 9], maxn=12, maxit=100, res=[3, 2, 2]), "symmetry"),
+    ]
+    with ThreadPoolExecutor(max_workers=4) as ex:
+        results = list(ex.map(lambda d: trace_run([{k: d[1][k] for k in EVENT_FIELDS[d[1]["kind"]]}]), demos))
+    for (name, ev, expect), res in zip(demos, results):
+        account(ctx, "MC_CellUtilsTrace", res, "(binding demonstration: %s)" % name)
+        got = [sorted(f) for _, _, f in printed(res.stdout, "V")]
+        ok = bool(got) and expect in got[0] and bool([n for n, _ in res.violations if n.startswith("Impl")])
+        ctx.extra.setdefault("binding_demos", []).append(dict(demo=name, expected=expect, rejected_for=got[0] if got else None, ok=ok))
+        if not ok:
+            raise tlcmod.MachineryError("x06: corrupted event '%s' was not rejected for '%s' (got %s)" % (name, expect, got))
+
+
 def real_events(ctx, entries):
     from harness import x06_driver as drv
 
@@ -289,6 +323,7 @@ def real_events(ctx, entries):
         events.append(dict(id=next_id(), kind="estsys", which=which, num=num, n=n, l2=l2, maxn=maxn, maxit=100, res=res))
     events += drv.reduce_events(rng, next_id, 6 if ctx.quick else 40, 4 if ctx.quick else 8)
     events += drv.tolerance_events(rng, next_id)
+    events += drv.yaml_events(entries, rng, next_id)
     pe, worst = drv.params_events(rng, next_id, 6 if ctx.quick else 40)
     events += pe
     ctx.extra["params_projection_error_over_tolerance"] = worst / 1e-9
@@ -324,16 +359,26 @@ def run(ctx):
     bad, n = drv.pmat_replay(table, np.random.default_rng(ctx.seed))
     ctx.traces += n
     ctx.extra["get_primitive_matrix_calls"] = n
-    if len(table) != 35:
+    sbad = drv.shape_replay(sorted(ctx.extra.pop("_shape_table"), key=repr))
+    ctx.traces += 12
+    if sbad:
+        ctx.violation("shape_supercell_matrix:replay", "shape_supercell_matrix differs from ShapeReq of CellUtils.tla", dict(witnesses=sbad[:5]))
+    if len(table) != 40:
         raise tlcmod.MachineryError("x06: %d rows of the get_primitive_matrix table" % len(table))
     if bad:
-        ctx.violation("get_primitive_matrix:replay", "get_primitive_matrix differs from PMatReq of CellUtils.tla (%d of %d calls)" % (len(bad), n),
+        ctx.violation("get_primitive_matrix:replay:" + "+".join(sorted(set(b["kind"] for b in bad))), "get_primitive_matrix differs from PMatReq of CellUtils.tla (%d of %d calls)" % (len(bad), n),
                       dict(witnesses=bad[:5]))
     estimate_replay(ctx, outcomes)
     close_replay(ctx, rows)
     events = real_events(ctx, entries)
     validate(ctx, events)
     atoms_replay(ctx, arows, decimals)
+    if ctx.seed == 0 or not ctx.quick:
+        binding_demos(ctx)
+    fired = {r["module"]: r["coverage"] for r in ctx.tlc_runs if r.get("coverage")}
+    ctx.extra["every_action_fires"] = all(v > 0 for cov in fired.values() for v in cov.values())
+    if not ctx.extra["every_action_fires"]:
+        raise tlcmod.MachineryError("x06: an action of a model never fired: %s" % fired)
     ctx.sample(dict(event=events[0]))
     ctx.sample(dict(event=[e for e in events if e["kind"] == "reduce"][3]))
 
@@ -349,9 +394,23 @@ def atoms_model(ctx):
     res = ctx.tlc("MC_AtomsSM", cfg_text=cfg, extra_files={"MC_AtomsSM.tla": mc}, requirement=True, workers=6, coverage=True,
                   what="TLC: a reachable PhonopyAtoms state of AtomsSM.tla violates a class invariant")
     fmt = printed(res.stdout, "FMT")
-    rows = [(unfreeze(h), s, unfreeze(o)) for _, h, s, o in printed(res.stdout, "AT")]
+    rows = [(unfreeze(h), s, unfreeze(o), unfreeze(d)) for _, h, s, o, d in printed(res.stdout, "AT")]
     if not fmt or len(rows) < 1000:
         raise tlcmod.MachineryError("x06: AtomsSM emitted %d histories" % len(rows))
+    # longer histories: random walks of the same machine
+    cfg2 = cfg.replace("MaxOps = %d" % (2 if ctx.quick else 3), "MaxOps = 7").replace("PROPERTY Independent\n", "")
+    sim = ctx.tlc("MC_AtomsSM", cfg_text=cfg2, extra_files={"MC_AtomsSM.tla": mc}, requirement=True, workers=2,
+                  simulate=dict(num=150 if ctx.quick else 1500), depth=9, seed=ctx.seed + 1)
+    seen = set(json.dumps(r[0], sort_keys=True) for r in rows)
+    extra = 0
+    for _, h, s, o, d in printed(sim.stdout, "AT"):
+        h = unfreeze(h)
+        k = json.dumps(h, sort_keys=True)
+        if k not in seen:
+            seen.add(k)
+            rows.append((h, s, unfreeze(o), unfreeze(d)))
+            extra += 1
+    ctx.extra["atoms_random_walk_histories"] = extra
     return rows, unfreeze(fmt[0][1])
 
 
@@ -363,7 +422,7 @@ def atoms_replay(ctx, rows, decimals):
         rows = [rows[i] for i in sorted(idx)]
     bad = drv.atoms_replay(rows, decimals)
     ctx.traces += len(rows)
-    for h, s, _ in rows:
+    for h, s, _, _ in rows:
         ctx.count(("atoms", json.dumps(h, sort_keys=True)))
     ctx.extra["atoms_histories"] = dict(replayed=len(rows), refused=sum(1 for r in rows if r[1] == "error"),
                                         with_copy=sum(1 for r in rows if any(h["op"] == "copy" for h in r[0])),
